@@ -76,18 +76,22 @@ ReadSeq(c, r) ==
       cs == SelectSeq(corder, LAMBDA d : d \in cross[c])
   IN [i \in 1..Len(ss) |-> <<ss[i], r>>] \o [i \in 1..Len(cs) |-> <<cs[i], 1>>]
 
-\* First read whose target is dirty (-> OrderError for that target), or <<>> if none
-FirstDirtyRead(c, r) ==
-  LET rs == ReadSeq(c, r)
-      idx == {i \in 1..Len(rs) : rs[i] \in dirty}
-  IN IF idx = {} THEN <<>> ELSE <<rs[CHOOSE i \in idx : \A j \in idx : i <= j]>>
-
-EvalValue(c, r) ==
+\* A formula reads its cells one after the other.  The first read of a DIRTY cell raises OrderError
+\* for that cell; the first read of a cell holding CircularRefError re-raises that error (the later
+\* reads never happen); otherwise the result is 1 + the sum of the values read.
+\* Scan(c, r) = [k |-> "order", cell] | [k |-> "circ"] | [k |-> "value", v]
+Scan(c, r) ==
   LET rs == ReadSeq(c, r)
       RECURSIVE Go(_, _)
-      Go(i, acc) == IF i > Len(rs) THEN acc
-                    ELSE IF val[rs[i]] = Circ THEN Circ ELSE Go(i + 1, acc + val[rs[i]])
+      Go(i, acc) ==
+        IF i > Len(rs) THEN [k |-> "value", v |-> acc, cell |-> <<c, r>>]
+        ELSE IF rs[i] \in dirty THEN [k |-> "order", v |-> 0, cell |-> rs[i]]
+        ELSE IF val[rs[i]] = Circ THEN [k |-> "circ", v |-> Circ, cell |-> rs[i]]
+        ELSE Go(i + 1, acc + val[rs[i]])
   IN Go(1, 1)
+
+FirstDirtyRead(c, r) == IF Scan(c, r).k = "order" THEN <<Scan(c, r).cell>> ELSE <<>>
+EvalValue(c, r) == Scan(c, r).v
 
 (***************************************************************************)
 (* Init: choose the program; everything is dirty (a bundle that just       *)
